@@ -1069,6 +1069,21 @@ def run(repo: Repo, rep: Report) -> None:  # noqa: F811
                         looks = _ws_cover(b, a, env, mutated, frozenset()) if b is not a else None
                         if looks is None:
                             continue
+                        # lookaheads written before the whole choice guard each of its arms: `~T + (X.leave_whitespace() | ~U + X)`
+                        top = n
+                        while isinstance(pm.parent.get(id(top)), ast.BinOp) and isinstance(pm.parent[id(top)].op, type(n.op)):
+                            top = pm.parent[id(top)]
+                        host = pm.parent.get(id(top))
+                        if isinstance(host, ast.BinOp) and isinstance(host.op, ast.Add):
+                            while isinstance(pm.parent.get(id(host)), ast.BinOp) and isinstance(pm.parent[id(host)].op, ast.Add):
+                                host = pm.parent[id(host)]
+                            chain_ = _flat(host, ast.Add)
+                            if any(top is x for x in chain_):
+                                i_ = [k for k, x in enumerate(chain_) if x is top][0]
+                                k_ = i_ - 1
+                                while k_ >= 0 and isinstance(chain_[k_], ast.UnaryOp) and isinstance(chain_[k_].op, ast.Invert):
+                                    looks = looks + [chain_[k_].operand]
+                                    k_ -= 1
                         clash = _lead(_lw_base(a), env) & follow
                         excluded = set().union(*[_lead(l, env) for l in looks]) if looks else set()
                         missing = sorted(clash - excluded)
